@@ -20,6 +20,13 @@ CHECKS["C12"] = dict(
     note="Trusted: Coq kernel incl. vm_compute; the fail-closed translator mathtable.py (literal table rows, textual normal form of add_function_mapping and find_known_functions.visit_Call, README regex, builtins' __module__ from the interpreter); the hand-written <cmath> signature table; what each std:: function computes (C library). Traces are tests.",
     technique="Coq proof by computation over a table regenerated from source + end-to-end traces",
 )
+CHECKS["C16"] = dict(
+    category="proof",
+    text="The three runner.sh templates are parsed on every run by a fail-closed bash-subset translator (re-print self-test) into Gallina scripts interpreted by a total shell model (set -e, getopts, expansion, tests, abstract file system, tool table with a fault oracle). Coq proves for each script, for every argument list, every oracle nat->bool, every nonce, every environment and every world of the backend's family (never built / built with arbitrary leftovers and destination contents), every non-empty -d word and the -o words of Shell.dest_words: unknown flag -> exit 10 and no tool run, stray argument -> exit 1 (C16_flags_*); build tools iff not -r, job iff not -c, -d f the sole input, -o p the delivery place (C16_phases_*); a failing step -> exit != 0 and destinations unchanged (C16_fail_*, C16_nonzero_unchanged_*); exit 0 -> no failed step and this run's output at the destination (C16_ok_*); every invocation in every built world meets the specification (C16_histories_partial_*: closure of the family under runs is observed, not proved). Method: getopts loop = its summary (induction), a run depends on the oracle only up to its first failing step (mutual induction over the interpreter), tables evaluated by vm_compute with contents/words symbolic.",
+    design_ref="5.16, 4.3, 4.4",
+    note="Trusted: Coq kernel incl. vm_compute; translator shell.py; the hand-written bash model Shell.v, validated against real bash 5.2 running the unchanged scripts with stub tools in a chroot inside a private mount namespace (exit status, tool log and whole file tree compared after every invocation; flag sets x single failing steps x histories); the tool table as the meaning of a step (atomic failures reported by exit status); lexical paths; -o words from a finite alphabet; words with blanks/globs judged on bash only (defect c16:unquoted-input-word fixed by fixes/c16_quote_input_file.patch). Not covered: partial effects of crashing tools, xrdcp, closure of the built family in Coq.",
+    technique="Coq proof by symbolic computation over regenerated scripts + induction over the shell interpreter (oracle collapse, getopts summary) + differential validation of the bash model against real bash",
+)
 NOT_YET = {}
 
 def main():
